@@ -32,9 +32,15 @@ MANIFEST = dict(
          "checked add/sub/mul return None or the reduced exact value in Q; for all 9 exact representation pairs and both "
          "profiles an exact result of + - * equals the true value and is well-formed, and + - * never panic; quotient and "
          "remainder of exact integers (Fixnum/BigInt/n/1, incl. i64::MIN by -1) are the truncating results; refutation "
-         "witnesses for the three recorded defect classes. Stated but OPEN (oracle-checked on every run only): / , "
-         "inexact-only-if-unrepresentable, the 2^-50 error bound, modulo, abs floor ceiling truncate numerator denominator "
-         "expt. Tied to /repo by all pairs of the property's palette in every representation, through the Number API and "
+         "witnesses for the three recorded defect classes; / on exact operands with an exact result is the true quotient "
+         "(C08_div_exact, all 9 pairs, both profiles) and C08_div_outcome says when it panics or is inexact; the result of "
+         "+ - * is inexact IFF the operand pair takes one of the spelled-out overflow branches (C08_op_inexact_iff), the "
+         "recorded fallback class = those branches with a representable true value is decidable, sound, complete and tight "
+         "(every member is a defect instance), and outside it the full statement holds word for word (C08_full_outside); "
+         "modulo is the flooring remainder outside a decidable class of two Fixnum-Rational cases that are refuted by "
+         "witnesses. The earlier full-strength statements of modulo, inexact-only-if and float comparison were FALSE as "
+         "written and are kept with their refutations. OPEN (oracle-checked on every run only): the 2^-50 error bound, abs "
+         "floor ceiling truncate numerator denominator expt, variadic folds. Tied to /repo by all pairs of the property's palette in every representation, through the Number API and "
          "through Vm::eval, debug and release builds, 3-way (impl / extracted model / vm_compute), with an independent "
          "exact-rational oracle for every clause of the property incl. representation independence.",
     design="DESIGN.md section 5 C08",
@@ -44,8 +50,8 @@ MANIFEST = dict(
          "whose statement mentions a number.rs function (num_add ...) reports the four standard-library axioms behind "
          "Coq's reals (ClassicalDedekindReals.sig_not_dec, sig_forall_dec, functional_extensionality_dep, "
          "Classical_Prop.classic) because the float arms of the same functions are Flocq operations whose validity "
-         "proofs are built over R; no other axiom. OPEN (stated as Definitions, oracle-checked only): div_exact, "
-         "inexact_only_if, modulo/abs/floor/ceiling/truncate/numerator/denominator/expt exactness, error bound.",
+         "proofs are built over R; no other axiom. OPEN (oracle-checked only): abs/floor/ceiling/truncate/numerator/"
+         "denominator/expt exactness, error bound, variadic folds.",
     technique="Rocq/Coq proof (Z/Q arithmetic, gcd reasoning) + model/implementation correspondence check")
 
 API_ARITH = [0, 1, 2, 3]          # + - * /
